@@ -91,7 +91,8 @@ FUNS   == {"+", "-", "*", "/", "=", "<", ">", "<=", ">=", "not", "list", "cons",
            "mod", "max", "min", "list?", "int?", "symbol?", "true?", "float?", "number?",
            "vector", "vector?", "array?", "aref", "string?", "sorted-map", "sorted-map?", "get", "key?", "keys", "assoc", "dissoc",
            "to-string", "string=", "slice", "make-sequence", "zip", "insert-index",
-           "compose", "flip", "unpack", "bool?", "symbol="}
+           "compose", "flip", "unpack", "bool?", "symbol=",
+           "stable-sort", "insert-sorted", "search-sorted"}
 BuiltinKind(name) == IF name \in OPS THEN "op" ELSE IF name \in MACROS THEN "macro" ELSE "fun"
 BuiltinFID(v) == IF v.p = "op" THEN "<special-op ``" \o v.s \o "''>"
                  ELSE IF v.p = "macro" THEN "<builtin-macro ``" \o v.s \o "''>"
@@ -127,7 +128,9 @@ Arity(name) ==
     [] name \in {"defun", "defmacro", "defconst"} -> <<2, -1>>
     [] name \in {"curry-function", "assert"} -> <<1, -1>>
     [] name = "get-default" -> <<3, 3>>
-    [] name \in {"compose", "unpack", "symbol="} -> <<2, 2>>
+    [] name \in {"compose", "unpack", "symbol=", "search-sorted"} -> <<2, 2>>
+    [] name = "stable-sort" -> <<2, -1>>
+    [] name = "insert-sorted" -> <<4, -1>>
     [] name \in {"flip", "bool?", "function", "expr"} -> <<1, 1>>
     [] OTHER -> <<0, -1>>
 ArityOK(name, k) == k >= Arity(name)[1] /\ (Arity(name)[2] = -1 \/ k <= Arity(name)[2])
@@ -808,6 +811,42 @@ DoCall(s) ==
          IF args[1].t # "list" THEN Fail(s, env)
          ELSE [s EXCEPT !.k = Append(@, [t |-> "mx", all |-> (f.s = "macroexpand"), depth |-> 0, env |-> env, form |-> args[1]]),
                         !.ctl = [mode |-> "mxstep"]]
+    [] f.s = "stable-sort" ->
+         \* sort.Stable on at most 20 elements is one insertion sort: for i = 2..n, element i sinks while
+         \* less(element j, element j-1).  The function is applied to the elements (to their keys) as VALUES.
+         LET fv == FunGlobal(s, args[1])  lis == args[2]
+             kv == IF n >= 3 THEN FunGlobal(s, args[3]) ELSE VNil IN
+         IF ~IsFun(fv) THEN Fail(s, env)
+         ELSE IF ~IsSeq(lis) THEN Fail(s, env)
+         ELSE IF n > 3 THEN Fail(s, env)
+         ELSE IF n = 3 /\ ~IsFun(kv) THEN Fail(s, env)
+         ELSE IF Len(lis.c) > 20 THEN [s EXCEPT !.dropped = TRUE]          \* outside the modelled algorithm
+         ELSE [s EXCEPT !.k = Append(@, [t |-> "sort", name |-> "stable-sort", f |-> fv, key |-> kv, items |-> lis.c, box |-> lis,
+                                         i |-> 2, j |-> 2, phase |-> "start", ka |-> VNil, kb |-> VNil, err |-> VNil,
+                                         item |-> VNil, lo |-> 0, hi |-> 0, env |-> env]),
+                        !.ctl = [mode |-> "sortstep"]]
+    [] f.s = "insert-sorted" ->
+         \* sort.Search: lo = 0, hi = n; h = (lo + hi) div 2; predicate(item, element h) true -> hi = h, else lo = h + 1.
+         \* An error answers false and the search goes on (the last error is the one returned).
+         LET spec == args[1]  lis == args[2]  pv == args[3]
+             kv == IF n >= 5 THEN FunGlobal(s, args[5]) ELSE VNil IN
+         IF spec.t # "sym" THEN Fail(s, env)
+         ELSE IF ~IsSeq(lis) THEN Fail(s, env)
+         ELSE IF ~IsFun(pv) THEN Fail(s, env)
+         ELSE IF n > 5 THEN Fail(s, env)
+         ELSE IF n = 5 /\ ~IsFun(kv) THEN Fail(s, env)
+         ELSE [s EXCEPT !.k = Append(@, [t |-> "sort", name |-> "insert-sorted", f |-> pv, key |-> kv, items |-> lis.c, box |-> spec,
+                                         i |-> 0, j |-> 0, phase |-> "start", ka |-> VNil, kb |-> VNil, err |-> VNil,
+                                         item |-> args[4], lo |-> 0, hi |-> Len(lis.c), env |-> env]),
+                        !.ctl = [mode |-> "sortstep"]]
+    [] f.s = "search-sorted" ->
+         LET pv == FunGlobal(s, args[2]) IN
+         IF args[1].t # "int" THEN Fail(s, env)
+         ELSE IF ~IsFun(pv) THEN Fail(s, env)
+         ELSE [s EXCEPT !.k = Append(@, [t |-> "sort", name |-> "search-sorted", f |-> pv, key |-> VNil, items |-> <<>>, box |-> VNil,
+                                         i |-> 0, j |-> 0, phase |-> "start", ka |-> VNil, kb |-> VNil, err |-> VNil,
+                                         item |-> VNil, lo |-> 0, hi |-> IF args[1].n > 0 THEN args[1].n ELSE 0, env |-> env]),
+                        !.ctl = [mode |-> "sortstep"]]
     [] f.s \in {"compose", "flip"} ->
          \* both build a new lambda in the CALLER's environment around the function VALUES
          LET fv == FunGlobal(s, args[1]) IN
@@ -852,8 +891,8 @@ MxStep(s) ==
        IF ~r.ok \/ ~IsFun(r.v) \/ FunKind(s, r.v) # "macro" THEN [s EXCEPT !.k = Pop(@), !.ctl = Ret(form)]
        ELSE [s EXCEPT !.ctl = [mode |-> "dispatch", f |-> NameFun(r.v, form.c[1]), args |-> Rest(form.c), env |-> x.env]]
 
-\* map / foldl / foldr / select / reject call the function once per element (env.FunCall);
-\* any? / all? EVALUATE the form (pred element) for each element
+\* map / foldl / foldr / select / reject / any? / all? call the function once per element (env.FunCall on the
+\* element as a VALUE)
 CanHofStep(s) == s.ctl.mode = "hofstep"
 HofStep(s) ==
   LET h == Top(s.k)  n == Len(h.items) IN
@@ -866,10 +905,61 @@ HofStep(s) ==
        [s EXCEPT !.k = Pop(@), !.ctl = Ret(r)]
   ELSE LET x == h.items[h.j + 1]
            h2 == [h EXCEPT !.j = @ + 1] IN
-       IF h.name \in {"any?", "all?"}
-       THEN [s EXCEPT !.k = SetTop(@, h2), !.ctl = Eval(VList(<<h.f, x>>), h.env)]
+       IF h.name \in {"any?", "all?"} /\ FunKind(s, h.f) # "fun"
+       THEN \* a macro or operator as the predicate takes the element as written: the form (pred element) is evaluated
+            [s EXCEPT !.k = SetTop(@, h2), !.ctl = Eval(VList(<<h.f, x>>), h.env)]
        ELSE LET fargs == CASE h.name = "foldl" -> <<h.acc, x>> [] h.name = "foldr" -> <<x, h.acc>> [] OTHER -> <<x>> IN
             [s EXCEPT !.k = SetTop(@, h2), !.ctl = [mode |-> "dispatch", f |-> h.f, args |-> fargs, env |-> h.env]]
+
+\* stable-sort / insert-sorted / search-sorted: the comparison calls, one at a time
+CanSortStep(s) == s.ctl.mode = "sortstep"
+\* apply fun to VALUES: a regular function is called on them; a macro or operator gets the form (fun v ...)
+ApplyVals(s, fr, fun, vals) ==
+  [s EXCEPT !.k = SetTop(@, fr),
+            !.ctl = IF FunKind(s, fun) = "fun" THEN [mode |-> "dispatch", f |-> fun, args |-> vals, env |-> fr.env]
+                    ELSE Eval(VList(<<fun>> \o vals), fr.env)]
+SortStep(s) ==
+  LET x == Top(s.k)  n == Len(x.items) IN
+  IF x.name = "stable-sort"
+  THEN IF x.i > n \/ x.err # VNil
+       THEN [s EXCEPT !.k = Pop(@), !.ctl = Ret(IF x.err # VNil THEN x.err ELSE [x.box EXCEPT !.c = x.items])]
+       ELSE IF x.j < 2 THEN [s EXCEPT !.k = SetTop(@, [x EXCEPT !.i = @ + 1, !.j = x.i + 1])]
+       ELSE LET a == x.items[x.j]  b == x.items[x.j - 1] IN
+            IF x.key = VNil THEN ApplyVals(s, [x EXCEPT !.phase = "cmp"], x.f, <<a, b>>)
+            ELSE IF x.phase = "start" THEN ApplyVals(s, [x EXCEPT !.phase = "ka"], x.key, <<a>>)
+            ELSE IF x.phase = "ka" THEN ApplyVals(s, [x EXCEPT !.phase = "kb"], x.key, <<b>>)
+            ELSE ApplyVals(s, [x EXCEPT !.phase = "cmp"], x.f, <<x.ka, x.kb>>)
+  ELSE \* binary search
+       IF x.lo >= x.hi
+       THEN IF x.err # VNil THEN [s EXCEPT !.k = Pop(@), !.ctl = Ret(x.err)]
+            ELSE IF x.name = "search-sorted" THEN [s EXCEPT !.k = Pop(@), !.ctl = Ret(VInt(x.lo))]
+            ELSE IF ~SeqSpec(x.box) THEN Fail([s EXCEPT !.k = Pop(@)], x.env)
+            ELSE [s EXCEPT !.k = Pop(@), !.ctl = Ret(MakeSeq(x.box, SubSeq(x.items, 1, x.lo) \o <<x.item>> \o SubSeq(x.items, x.lo + 1, n), FALSE))]
+       ELSE LET h == (x.lo + x.hi) \div 2 IN
+            IF x.name = "search-sorted"
+            THEN \* (the form (predicate h) is evaluated)
+                 [s EXCEPT !.k = SetTop(@, [x EXCEPT !.phase = "cmp"]), !.ctl = Eval(VList(<<x.f, VInt(h)>>), x.env)]
+            ELSE LET a == x.item  b == x.items[h + 1] IN
+                 IF x.key = VNil THEN ApplyVals(s, [x EXCEPT !.phase = "cmp"], x.f, <<a, b>>)
+                 ELSE IF x.phase = "start" THEN ApplyVals(s, [x EXCEPT !.phase = "ka"], x.key, <<a>>)
+                 ELSE IF x.phase = "ka" THEN ApplyVals(s, [x EXCEPT !.phase = "kb"], x.key, <<b>>)
+                 ELSE ApplyVals(s, [x EXCEPT !.phase = "cmp"], x.f, <<x.ka, x.kb>>)
+\* a comparison call (or a key call) has returned
+SortReturn(s, x, v) ==
+  LET n == Len(x.items)  again == [mode |-> "sortstep"] IN
+  IF x.name = "stable-sort"
+  THEN IF IsErr(v) THEN [s EXCEPT !.k = SetTop(@, [x EXCEPT !.err = v]), !.ctl = again]
+       ELSE IF x.phase = "ka" THEN [s EXCEPT !.k = SetTop(@, [x EXCEPT !.ka = v]), !.ctl = again]
+       ELSE IF x.phase = "kb" THEN [s EXCEPT !.k = SetTop(@, [x EXCEPT !.kb = v]), !.ctl = again]
+       ELSE IF Truthy(v)
+       THEN [s EXCEPT !.k = SetTop(@, [x EXCEPT !.items = [@ EXCEPT ![x.j] = x.items[x.j - 1], ![x.j - 1] = x.items[x.j]], !.j = @ - 1, !.phase = "start"]), !.ctl = again]
+       ELSE [s EXCEPT !.k = SetTop(@, [x EXCEPT !.i = @ + 1, !.j = x.i + 1, !.phase = "start"]), !.ctl = again]
+  ELSE LET h == (x.lo + x.hi) \div 2 IN
+       IF IsErr(v) THEN [s EXCEPT !.k = SetTop(@, [x EXCEPT !.err = v, !.lo = h + 1, !.phase = "start"]), !.ctl = again]
+       ELSE IF x.phase = "ka" THEN [s EXCEPT !.k = SetTop(@, [x EXCEPT !.ka = v]), !.ctl = again]
+       ELSE IF x.phase = "kb" THEN [s EXCEPT !.k = SetTop(@, [x EXCEPT !.kb = v]), !.ctl = again]
+       ELSE IF Truthy(v) THEN [s EXCEPT !.k = SetTop(@, [x EXCEPT !.hi = h, !.phase = "start"]), !.ctl = again]
+       ELSE [s EXCEPT !.k = SetTop(@, [x EXCEPT !.lo = h + 1, !.phase = "start"]), !.ctl = again]
 
 \* body of a lambda: non-last forms are evaluated for effect; the last form puts the frame in its terminal state
 CanBodyStep(s) == s.ctl.mode = "bodystep"
@@ -1123,10 +1213,14 @@ OpStep(s) ==
          THEN \* handler expression evaluated: must be a function; push the condition, call it
               LET hv == Top(o.vals)  er == o.err IN
               IF ~IsFun(hv) THEN OpFail(s, env)
-              ELSE LET call == VList(<<hv, QuoteV(VSym(er.s))>> \o er.c) IN
+              ELSE LET hargs == <<QuoteV(VSym(er.s))>> \o er.c
+                       call == VList(<<hv>> \o hargs) IN
+                   \* a regular function is applied to the condition name and the error's data AS VALUES (they are not
+                   \* evaluated again); a macro or operator given as handler gets them as a form
                    [s EXCEPT !.conds = Append(@, er),
                              !.k = SetTop(@, [o EXCEPT !.phase = "hcall", !.pushed = TRUE]),
-                             !.ctl = Eval(call, env)]
+                             !.ctl = IF FunKind(s, hv) = "fun" THEN [mode |-> "dispatch", f |-> hv, args |-> hargs, env |-> env]
+                                     ELSE Eval(call, env)]
          ELSE OpReturn(s, Top(o.vals))
     [] OTHER -> OpFail(s, env)
 
@@ -1156,6 +1250,7 @@ DoReturn(s) ==
                 [] c.name \in {"foldl", "foldr"} -> [s EXCEPT !.k = SetTop(@, [c EXCEPT !.acc = v]), !.ctl = [mode |-> "hofstep"]]
                 [] c.name = "all?" -> IF Truthy(v) THEN [s EXCEPT !.ctl = [mode |-> "hofstep"]] ELSE [s EXCEPT !.k = Pop(@), !.ctl = Ret(VFalse)]
                 [] c.name = "any?" -> IF Truthy(v) THEN [s EXCEPT !.k = Pop(@), !.ctl = Ret(v)] ELSE [s EXCEPT !.ctl = [mode |-> "hofstep"]])
+    [] c.t = "sort" -> SortReturn(s, c, v)
     [] c.t = "mx" ->
          IF IsErr(v) THEN [s EXCEPT !.k = Pop(@)]
          ELSE IF v.t # "macexp" THEN Fail([s EXCEPT !.k = Pop(@)], c.env)
@@ -1217,6 +1312,7 @@ Unwind(s) ==
     [] c.t = "load" -> Unwind([s EXCEPT !.k = Pop(@), !.pkg = c.saved])
     [] c.t = "mx" -> Unwind([s EXCEPT !.k = Pop(@)])
     [] c.t = "hof" -> Unwind([s EXCEPT !.k = Pop(@)])
+    [] c.t = "sort" -> Unwind([s EXCEPT !.k = Pop(@)])
     [] c.t = "op" -> Unwind([s EXCEPT !.k = Pop(@), !.conds = IF c.op = "handler-bind" /\ c.pushed /\ c.phase = "hcall" THEN Pop(@) ELSE @])
     [] OTHER -> [s EXCEPT !.k = Pop(@)]
 DoPanic(s) ==
@@ -1238,6 +1334,7 @@ Next == \/ /\ CanNext(m) /\ m' = NextForm(m)
         \/ CanBodyStep(m) /\ m' = BodyStep(m)
         \/ CanMxStep(m)   /\ m' = MxStep(m)
         \/ CanHofStep(m)  /\ m' = HofStep(m)
+        \/ CanSortStep(m) /\ m' = SortStep(m)
         \/ CanOpStep(m)   /\ m' = OpStep(m)
         \/ CanReturn(m)   /\ m' = DoReturn(m)
         \/ CanPanic(m)    /\ m' = DoPanic(m)
